@@ -67,10 +67,14 @@ ToItems == /\ phase = "from" /\ Len(rels) >= 1 /\ phase' = "items" /\ UNCHANGED 
 \* r = Foreign: the qualifier "zz" names nothing in the FROM scope - the analyser's documented fallback takes it for a table
 \* of that name in the default schema (C14: that table is created under the configured default like any other)
 Foreign == 9
-Refs == [r : 0..Len(rels), c : ColNames \cup {Star}] \cup (IF WithForeign THEN [r : {Foreign}, c : ColNames] ELSE {})
+\* r = Scalar: not a reference into the FROM scope either - a scalar subquery ( SELECT max(zc) FROM zt ) over a table of its own
+Scalar == 8
+Outside(r) == r \in {Foreign, Scalar}
+Refs == [r : 0..Len(rels), c : ColNames \cup {Star}] \cup (IF WithForeign THEN [r : {Foreign}, c : ColNames] \cup {[r |-> Scalar, c |-> "zc"]} ELSE {})
 RefSeqs == (IF WithLiteral THEN {<<>>} ELSE {}) \cup {<<x>> : x \in Refs}
            \cup (IF MaxRefs >= 2 THEN {<<x, y>> : x \in {z \in Refs : z.c # Star}, y \in {z \in Refs : z.c # Star}} ELSE {})
 ItemOK(it) == /\ (Len(it.refs) = 2 => it.al # None /\ it.refs[1] # it.refs[2])
+              /\ ((\E m \in DOMAIN it.refs : it.refs[m].r = Scalar) => it.al # None)      \* an un-aliased subquery is named by its text
               /\ (Len(it.refs) = 0 => it.al # None)
               /\ (Len(it.refs) = 1 /\ it.refs[1].c = Star => it.al = None)
               /\ \A j \in DOMAIN items : ItemName(items[j]) # ItemName(it) \/ ItemName(it) = Star
@@ -133,6 +137,7 @@ SrcOfRel(i, c) == LET r == rels[i] IN
 AllRelNames == {IF rels[i].k = "tbl" THEN TblName(rels[i]) ELSE rels[i].al : i \in DOMAIN rels}
 SrcOfRef(ref) ==
    IF ref.r = Foreign THEN {Col("<default>.zz", ref.c)}
+   ELSE IF ref.r = Scalar THEN {Col("<default>.zt", ref.c)}
    ELSE IF ref.r > 0 THEN SrcOfRel(ref.r, ref.c)
    ELSE IF Len(rels) = 1 THEN SrcOfRel(1, ref.c)
    ELSE LET S == {i \in DOMAIN rels : ref.c \in KnownCols(i)} IN
@@ -169,7 +174,7 @@ ValidColumns == \A j \in DOMAIN items, m \in 1..2 :
          Cardinality(S) <= 1 \/ ((\A i \in S : MetaHas(i, c)) /\ (\A i \in DOMAIN rels : c \notin GraphCols(i)))
 \* a qualified reference to a derived table names one of its output columns
 ValidSubRefs == \A j \in DOMAIN items, m \in 1..2 :
-   (m <= Len(items[j].refs) /\ items[j].refs[m].r > 0 /\ items[j].refs[m].r # Foreign /\ rels[items[j].refs[m].r].k = "sub" /\ items[j].refs[m].c # Star)
+   (m <= Len(items[j].refs) /\ items[j].refs[m].r > 0 /\ ~Outside(items[j].refs[m].r) /\ rels[items[j].refs[m].r].k = "sub" /\ items[j].refs[m].c # Star)
       => SubHas(rels[items[j].refs[m].r], items[j].refs[m].c)
 \* an unqualified column over a single derived table is one of its output columns
 ValidSingleSub == (Len(rels) = 1 /\ rels[1].k = "sub") =>
@@ -200,7 +205,7 @@ MapOld == Over(Over(Over(Empty, AliasPairs, 1), BarePairs, 1), FullPairs, 1)    
 Map == IF "D_ALIAS_MAP_PRECEDENCE" \in Known THEN MapOld ELSE MapIntended
 \* the qualifier text of a reference to relation i is its exposed name; the machine looks that text up
 MachineRel(i) == Map[Exposed(rels[i])]
-MachineSrcOfRef(ref) == IF ref.r > 0 /\ ref.r # Foreign THEN SrcOfRel(MachineRel(ref.r), ref.c) ELSE SrcOfRef(ref)
+MachineSrcOfRef(ref) == IF ref.r > 0 /\ ~Outside(ref.r) THEN SrcOfRel(MachineRel(ref.r), ref.c) ELSE SrcOfRef(ref)
 MachineFlowItem(j) == LET it == items[j] IN
    IF Len(it.refs) = 1 /\ it.refs[1].c = Star
    THEN UNION {StarOf(i) : i \in (IF it.refs[1].r > 0 THEN {MachineRel(it.refs[1].r)} ELSE DOMAIN rels)}
